@@ -692,9 +692,9 @@ def gen_class(rng):
         if lf['t'] in ('float', 'scaled'):
             p['unit'] = rng.choice(['K', 'mm', '', 'V']) if n == 'value' else rng.choice(UNITS)
         r = rng.random()
-        if r < 0.08:
+        if r < 0.05:
             p['descr'] = None
-        if rng.random() < 0.12:
+        if rng.random() < 0.08:
             p['needscfg'] = True
         r = rng.random()
         if r < 0.08:
@@ -711,7 +711,7 @@ def gen_class(rng):
             p['value'] = G.tag(gen_valid(rng, d))
         p['has_write'] = rng.random() < 0.5
         p['has_read'] = rng.random() < 0.5
-        if rng.random() < 0.04:
+        if rng.random() < 0.025:
             p['dt'] = None                      # a parameter without datatype
             p['unit'] = ''
             p.pop('default', None)
@@ -804,7 +804,8 @@ def gen_module(rng, name, ci, cd):
             if r < 0.75:
                 continue
             k, v = rng.choice([('description', 'cfg cmd'), ('group', 'grp'), ('visibility', 2), ('export', False),
-                               ('export', '_go'), ('foo', 1), ('visibility', 7), ('visibility', [1]), ('group', 5)])
+                               ('export', '_go'), ('description', 'x'), ('visibility', 'expert'), ('group', ''),
+                               ('foo', 1), ('visibility', 7), ('visibility', [1]), ('group', 5)])
             kws.append([n, ['param', None, [[k, G.tag(v)]]]])
             continue
         if p.get('optional'):
@@ -821,9 +822,9 @@ def gen_module(rng, name, ci, cd):
             continue
         r = rng.random()
         vr = rng.random()
-        if vr < 0.7:
+        if vr < 0.84:
             val = gen_valid(rng, d)
-        elif vr < 0.85:
+        elif vr < 0.93:
             val = gen_outside(rng, d)
             if val is None:
                 val = gen_valid(rng, d)
@@ -835,28 +836,29 @@ def gen_module(rng, name, ci, cd):
         props = gen_props(rng, p, rng.randint(0, 3))
         if p.get('descr') is None and rng.random() < 0.7 and 'description' not in [k for k, _ in props]:
             props.append(['description', G.tag('given in cfg')])
-        if rng.random() < 0.15:
+        if rng.random() < 0.07:
             bad = gen_bad_prop(rng, p)
             props = [kv for kv in props if kv[0] not in [b[0] for b in bad]]
             pos = rng.randint(0, len(props))
             props[pos:pos] = bad
         kws.append([n, ['param', G.tag(val) if rng.random() < 0.6 else None, props]])
     # module properties
-    for k, choices in (('visibility', [2, 'expert', 3, 7, 'x']), ('group', ['mgrp', 'mgrp', 5]),
-                       ('export', [False, True, 'no']), ('pollinterval', [1.0, 2, 0.05, 'x', 120]),
-                       ('slowinterval', [10, 500.0]), ('cprop', [5, 0, 50, 'x', 2.0])):
-        p = 0.45 if (k == 'cprop' and cd.get('custom') == 'mand') else 0.12
+    for k, good, bad in (('visibility', [2, 'expert', 3, 'advanced', 1], [7, 'x']), ('group', ['mgrp', 'g'], [5]),
+                         ('export', [False, True, False, 0], ['no']),
+                         ('pollinterval', [1.0, 2, 120, 0.1, 3.5], [0.05, 'x']),
+                         ('slowinterval', [10, 20.0], [500.0]), ('cprop', [5, 0, 10, 7, 2.0], [50, 'x', 2.5])):
+        p = 0.88 if (k == 'cprop' and cd.get('custom') == 'mand') else 0.12
         if k == 'cprop' and not cd.get('custom'):
-            p = 0.03
+            p = 0.02
         if rng.random() < p:
-            v = rng.choice(choices)
-            if rng.random() < 0.15:
+            v = rng.choice(bad if rng.random() < 0.12 else good)
+            if rng.random() < 0.04:
                 kws.append([k, ['param', None, [['default', G.tag(v)]]]])      # a Param without value
             else:
                 kws.append([k, rng.choice([['bare', G.tag(v)], ['param', G.tag(v), []]])])
-    if rng.random() < 0.08:
-        kws.append([rng.choice(['zz', 'foo_bar', 'p9']), ['bare', G.tag(1)]])
     if rng.random() < 0.04:
+        kws.append([rng.choice(['zz', 'foo_bar', 'p9']), ['bare', G.tag(1)]])
+    if rng.random() < 0.02:
         kws.append(['yy', ['param', None, [['min', G.tag(0)]]]])
     rng.shuffle(kws)
     pkeys = [k for k, kw in kws if kw[0] != 'group']
@@ -865,7 +867,7 @@ def gen_module(rng, name, ci, cd):
         if rng.random() < 0.1:
             members.append('nokey')
         kws.insert(rng.randint(0, len(kws)), ['cfggroup', ['group', members]])
-    descr = rng.choice(['a module', 'a module', 'a module', 'another\nmodule', 5, 'café'])
+    descr = rng.choice(['a module'] * 24 + ['another\nmodule'] * 8 + [5, 'café'])
     return {'name': name, 'cls': ci, 'descr': G.tag(descr), 'kws': kws}
 
 
@@ -921,7 +923,7 @@ def gen_case(rng):
         if rng.random() < 0.05:
             ci = rng.randrange(len(classes))
             mods.append(gen_module(rng, mods[0]['name'], ci, classes[ci]))      # duplicate section in one file
-        if rng.random() < 0.03:
+        if rng.random() < 0.015:
             mods[rng.randrange(len(mods))]['name'] = rng.choice(['1abc', 'a-b', 'x' * 64, 'mé', '_m'])
         files.append({'eid': f'eq{i + 1}', 'mods': mods})
     case = {'classes': classes, 'files': files}
@@ -933,3 +935,560 @@ def gen_cases(seed, tier):
     rng = random.Random(seed * 7919 + 10)
     n = {'quick': 2600, 'thorough': 30000, 'search': 12000}.get(tier, 2600)
     return [gen_case(rng) for _ in range(n)]
+
+
+# ------------------------------------------------------------------ specification side (written from the property text)
+MODNAME_RE = re.compile(r'^[a-zA-Z]\w{0,62}$', re.ASCII)
+VIS = {'user': 1, 'advanced': 2, 'expert': 3, 1: 1, 2: 2, 3: 3}
+PREDEF_PARAMS = {'value', 'status', 'target', 'pollinterval', 'ramp', 'use_ramp', 'setpoint', 'time_to_target',
+                 'controlled_by', 'control_active', 'unit', 'loglevel', 'mode', 'ctrlpars'}
+PREDEF_CMDS = {'stop', 'reset', 'go', 'abort', 'shutdown', 'communicate'}
+CMD_PROPS = ['description', 'group', 'visibility', 'export', 'datatype', 'argument', 'result', 'influences']
+
+
+def _isnum(v):
+    return isinstance(v, (int, float)) and not isinstance(v, bool) and v == v and abs(v) != math.inf
+
+
+def spec_conv(d, v):
+    """('ok', converted python value) | ('range',) | ('wrong',): the value set of the datatype, from the SECoP meaning of
+    the types (limits of numeric types are NOT applied here: conversion only)"""
+    t = d['t']
+    if t == 'float':
+        return ('ok', float(v)) if _isnum(v) else ('wrong',)
+    if t == 'int':
+        if _isnum(v) and v == int(v):
+            return 'ok', int(v)
+        return ('wrong',)
+    if t == 'scaled':
+        if not _isnum(v):
+            return ('wrong',)
+        s = G.dec_float(d['scale'])
+        return 'ok', round(v / s) * s
+    if t == 'bool':
+        if isinstance(v, bool) or (type(v) is int and v in (0, 1)):
+            return 'ok', bool(v)
+        return ('wrong',)
+    if t == 'enum':
+        if isinstance(v, bool):
+            return ('wrong',)
+        for n, x in d['members']:
+            if v == n or (type(v) is int and v == x):
+                return 'ok', ('enum', n, x)
+        return ('range',) if isinstance(v, (int, str)) else ('wrong',)
+    if t == 'string':
+        if not isinstance(v, str):
+            return ('wrong',)
+        if not d['min'] <= len(v) <= d['max'] or (not d['utf8'] and not v.isascii()) or '\0' in v:
+            return ('range',)
+        return 'ok', v
+    if t == 'array':
+        if not isinstance(v, (list, tuple)):
+            return ('wrong',)
+        if not d['min'] <= len(v) <= d['max']:
+            return ('range',)
+        out = []
+        for x in v:
+            r = spec_conv(d['elem'], x)
+            if r[0] != 'ok':
+                return r
+            out.append(r[1])
+        return 'ok', tuple(out)
+    if not isinstance(v, dict) or set(v) != {n for n, _ in d['members']}:
+        return ('wrong',)
+    out = {}
+    for n, x in d['members']:
+        r = spec_conv(x, v[n])
+        if r[0] != 'ok':
+            return r
+        out[n] = r[1]
+    return 'ok', out
+
+
+def same_value(observed_tagged, expected):
+    """tagged cache value == spec-side converted value (type and value)"""
+    v = G.untag(observed_tagged)
+
+    def eq(a, b):
+        if isinstance(b, tuple) and len(b) == 3 and b[0] == 'enum':
+            return isinstance(a, G.EnumVal) and a.name == b[1] and a.value == b[2]
+        if isinstance(b, tuple):
+            return isinstance(a, tuple) and len(a) == len(b) and all(eq(x, y) for x, y in zip(a, b))
+        if isinstance(b, dict):
+            return isinstance(a, dict) and set(a) == set(b) and all(eq(a[k], b[k]) for k in b)
+        return type(a) is type(b) and a == b
+    return eq(v, expected)
+
+
+def effective_sections(case):
+    """spec side: first file wins, later files only add new names tagged with their equipment id;
+    returns None when the files cannot be loaded (invalid module name, group member that is not configured)"""
+    merged = {}
+    for i, f in enumerate(case['files']):
+        own = {}
+        for m in f['mods']:
+            if not MODNAME_RE.match(m['name']):
+                return None
+            keys = [k for k, kw in m['kws'] if kw[0] != 'group']
+            for k, kw in m['kws']:
+                if kw[0] == 'group' and any(x not in keys for x in kw[1]):
+                    return None
+            own[m['name']] = m
+        for n, m in own.items():
+            if n not in merged:
+                merged[n] = (m, f['eid'] if i > 0 else None)
+    return merged
+
+
+def section_entries(m):
+    """{key: {prop: python value}} after the DSL (bare value -> value, Group -> group property)"""
+    ent = {}
+    for k, kw in m['kws']:
+        if kw[0] == 'bare':
+            ent[k] = {'value': G.untag(kw[1])}
+        elif kw[0] == 'param':
+            e = {kk: G.untag(v) for kk, v in kw[2]}
+            if kw[1] is not None:
+                e['value'] = G.untag(kw[1])
+            ent[k] = e
+    for k, kw in m['kws']:
+        if kw[0] == 'group':
+            for x in kw[1]:
+                ent[x]['group'] = k
+    return ent
+
+
+def dt_props(d):
+    lf = leaf_of(d)
+    own = {'float': ['min', 'max', 'unit', 'fmtstr', 'absolute_resolution', 'relative_resolution'],
+           'int': ['min', 'max'], 'scaled': ['min', 'max', 'unit', 'fmtstr', 'absolute_resolution',
+                                             'relative_resolution', 'scale'],
+           'string': ['minchars', 'maxchars', 'isUTF8'], 'blob': ['minbytes', 'maxbytes']}
+    res = list(own.get(lf['t'], []))
+    if d['t'] == 'array':
+        res += ['minlen', 'maxlen']
+    return res
+
+
+def prop_value_ok(k, v):
+    """True / False / None (no claim) for the generic accessible properties"""
+    if k == 'visibility':
+        return (not isinstance(v, bool)) and isinstance(v, (int, str)) and v in VIS
+    if k == 'readonly':
+        return isinstance(v, bool) or (type(v) is int and v in (0, 1))
+    if k == 'needscfg':
+        return v is None or isinstance(v, bool)
+    if k == 'export':
+        return isinstance(v, (bool, str)) or (type(v) is int and v in (0, 1))
+    if k in ('group', 'description', 'unit'):
+        if not isinstance(v, str):
+            return False
+        return True if v.isascii() or k == 'unit' else None
+    return None
+
+
+def analyse_module(case, m, origin):
+    """spec-side analysis of one effective module section -> dict(bad=[reasons], unsure=bool, params={name: expectation})"""
+    cd = case['classes'][m['cls']]
+    ent = section_entries(m)
+    bad, unsure = [], False
+    modprops = MODULE_PROPS + (['cprop'] if cd.get('custom') else [])
+    acc = {p['name']: p for p in cd['params'] if not p.get('optional')}
+    descr = G.untag(m['descr'])
+    if not isinstance(descr, str):
+        bad.append('wrong-type:description')
+    elif not descr.isascii():
+        unsure = True
+    mexp = {}
+    for k, e in ent.items():
+        if k in acc:
+            continue
+        if k not in modprops:
+            bad.append(f'unknown-name:{k}')
+            continue
+        if 'value' not in e:
+            unsure = True           # Param() without value for a module property: nothing to apply
+            continue
+        v = e['value']
+        if k in ('visibility', 'export', 'group'):
+            ok = prop_value_ok(k, v) if k != 'export' else (isinstance(v, bool) or (type(v) is int and v in (0, 1)))
+            if ok is False:
+                bad.append(f'wrong-type:{k}')
+            elif ok is None:
+                unsure = True
+            else:
+                mexp[k] = VIS[v] if k == 'visibility' else bool(v) if k == 'export' else v
+        elif k in ('pollinterval', 'slowinterval'):
+            if not _isnum(v):
+                bad.append(f'wrong-type:{k}')
+            elif not 0.1 <= v <= 120:
+                unsure = True
+            else:
+                mexp[k] = float(v)
+        elif k == 'cprop':
+            if not (_isnum(v) and v == int(v)):
+                bad.append('wrong-type:cprop')
+            elif not 0 <= v <= 10:
+                unsure = True
+            else:
+                mexp[k] = int(v)
+        else:
+            unsure = True
+    if cd.get('custom') == 'mand' and 'cprop' not in ent:
+        bad.append('missing-mandatory:cprop')
+    if origin is not None:
+        mexp['original_id'] = origin
+    params = {}
+    for n, p in acc.items():
+        e = ent.get(n, {})
+        x = {'cfg': e, 'p': p}
+        params[n] = x
+        if p['kind'] == 'cmd':
+            for k, v in e.items():
+                if k not in CMD_PROPS:
+                    bad.append(f'unknown-param-property:{n}.{k}')
+                elif prop_value_ok(k, v) is False:
+                    bad.append(f'wrong-type:{n}.{k}')
+                elif prop_value_ok(k, v) is None:
+                    unsure = True
+            if p.get('descr') is None and 'description' not in e:
+                bad.append(f'missing-mandatory:{n}.description')
+            continue
+        d = p.get('dt')
+        if d is None:
+            bad.append(f'missing-mandatory:{n}.datatype')
+            continue
+        lf = numeric_leaf(d)
+        for k, v in e.items():
+            if k in ('value', 'default'):
+                r = spec_conv(d, v)
+                if r[0] == 'wrong':
+                    bad.append(f'wrong-type:{n}.{k}')
+                elif r[0] == 'range':
+                    unsure = True
+                else:
+                    x['conv_' + k] = r[1]
+            elif k in PARAM_PROPS:
+                ok = prop_value_ok(k, v)
+                if ok is False:
+                    bad.append(f'wrong-type:{n}.{k}')
+                elif ok is None:
+                    unsure = True
+            elif k in dt_props(d):
+                if k in ('min', 'max'):
+                    if not _isnum(v) or (lf['t'] == 'int' and v != int(v)):
+                        bad.append(f'wrong-type:{n}.{k}')
+                elif k == 'unit':
+                    if not isinstance(v, str):
+                        bad.append(f'wrong-type:{n}.{k}')
+                else:
+                    unsure = True
+            else:
+                bad.append(f'unknown-param-property:{n}.{k}')
+        if p.get('descr') is None and 'description' not in e:
+            bad.append(f'missing-mandatory:{n}.description')
+        needs = e['needscfg'] if isinstance(e.get('needscfg'), bool) else bool(p.get('needscfg'))
+        if needs and 'value' not in e and p.get('value') is None:
+            bad.append(f'missing-required-value:{n}')
+        if lf is not None:
+            a, b = leaf_bounds(lf)
+            if _isnum(e.get('min')):
+                a = e['min']
+            if _isnum(e.get('max')):
+                b = e['max']
+            x['limits'] = (a, b)
+            if a > b:
+                bad.append(f'inverted-limits:{n}')
+    return {'bad': bad, 'unsure': unsure, 'params': params, 'mexp': mexp, 'cd': cd, 'entries': ent}
+
+
+def expected_export(p, e, mod_export):
+    """the name under which the accessible must be reachable, None = hidden"""
+    n = p['name']
+    auto = n if n in (PREDEF_CMDS if p['kind'] == 'cmd' else PREDEF_PARAMS) else '_' + n
+    if mod_export is False:
+        return None
+    x = e['export'] if 'export' in e else p.get('export')
+    if x is None or x is True or (type(x) is int and x == 1):
+        return auto
+    if x is False or (type(x) is int and x == 0):
+        return None
+    return x
+
+
+def _fail(cls, what, **detail):
+    return {'class': cls, 'what': what, 'detail': detail}
+
+
+def oracle(case, obs):
+    fails = []
+    eff = effective_sections(case)
+    if obs.get('exc'):
+        fails.append(_fail('unexpected-exception', f"Server._processCfg raised {obs['exc']} instead of reporting errors"))
+    if eff is None:
+        if obs['load'] == 'ok':
+            fails.append(_fail('bad-file-loaded', 'a config file with an invalid module name / unknown group member was loaded'))
+        return fails
+    if obs['load'] != 'ok':
+        fails.append(_fail('valid-files-not-loaded', f"loading the config files raised {obs['load']}"))
+        return fails
+    mods = dict(obs['mods'])
+    if list(eff) != [n for n, _ in obs['mods']]:
+        fails.append(_fail('merge', f"module sections {[n for n, _ in obs['mods']]} but the merge rule gives {list(eff)}"))
+        return fails
+    any_bad = False         # an erroneous module that was (rightly) rejected
+    all_clean = True
+    for name, (m, origin) in eff.items():
+        A = analyse_module(case, m, origin)
+        o = mods[name]
+        if A['bad']:
+            all_clean = False
+            if o['kind'] != 'created' and name not in obs['registered']:
+                any_bad = True
+            if o['kind'] == 'created' or name in obs['registered']:
+                kinds = sorted({b.split(':')[0] for b in A['bad']})
+                fails.append(_fail('erroneous-accepted', f"module {name} registered although its configuration has "
+                                   f"{', '.join(A['bad'][:4])}", module=name, reasons=A['bad'], kinds=kinds,
+                                   array_params=[n for n, x in A['params'].items()
+                                                 if x['p'].get('dt') and x['p']['dt']['t'] == 'array']))
+            elif name not in obs.get('error_modules', []):
+                fails.append(_fail('failing-module-not-reported', f'module {name} was rejected but is not named in the errors'))
+            continue
+        if A['unsure']:
+            all_clean = False
+            if o['kind'] != 'created' and name not in obs.get('error_modules', []):
+                fails.append(_fail('failing-module-not-reported', f'module {name} was rejected but is not named in the errors'))
+            if o['kind'] != 'created':
+                continue
+        elif o['kind'] != 'created':
+            fails.append(_fail('valid-rejected', f"module {name}: valid configuration rejected ({o.get('errs')})", module=name))
+            continue
+        fails.extend(check_applied(case, obs, name, A, o))
+    if any_bad and obs['started']:
+        fails.append(_fail('started-with-errors', 'the node started although a module configuration was rejected'))
+    if all_clean and not obs['started']:
+        fails.append(_fail('valid-node-refused', f"the node refused to start with valid configurations ({obs['other_errors'][:2]})"))
+    for name, o in obs['mods']:
+        if o['kind'] == 'created' and o.get('in_errors'):
+            fails.append(_fail('half-applied', f'module {name} is registered and reported as failing'))
+        if o['kind'] == 'missing':
+            fails.append(_fail('failing-module-not-reported', f'module {name} neither registered nor reported'))
+    return fails
+
+
+def check_applied(case, obs, name, A, o):
+    fails = []
+    snap = {p['name']: p for p in o['params']}
+    mexp = A['mexp']
+    mod_export = mexp.get('export', True)
+    desc = obs['describe'].get(name)
+    names = {k: v for k, v in o['names']}
+    mv = {k: G.untag(v) for k, v in o['mvals']}
+    for k, v in mexp.items():
+        got = mv.get(k)
+        got = got.value if isinstance(got, G.EnumVal) else got
+        if got != v or (k != 'visibility' and type(got) is not type(v)):
+            fails.append(_fail('module-property', f'module {name}: property {k} configured as {v!r}, instance has {got!r}'))
+    if mod_export and desc is None:
+        fails.append(_fail('describe', f'module {name} is missing from the description'))
+    if not mod_export and desc is not None:
+        fails.append(_fail('describe', f'module {name} has export=False but is described'))
+    if desc is not None:
+        for k, dk in (('visibility', 'visibility'), ('group', 'group'), ('original_id', '_original_id')):
+            if k in mexp and desc.get(dk, {'visibility': 1, 'group': '', 'original_id': None}[k]) != mexp[k]:
+                fails.append(_fail('describe', f'module {name}: described {dk} is {desc.get(dk)!r}, configured {mexp[k]!r}'))
+    # main unit
+    main = ''
+    pv = A['params'].get('value')
+    if pv and pv['p']['kind'] == 'param' and pv['p'].get('dt') and leaf_of(pv['p']['dt'])['t'] in ('float', 'scaled'):
+        main = pv['cfg'].get('unit', pv['p'].get('unit', ''))
+    trace = o['trace']
+    first_poll = min([i for i, e in enumerate(trace) if e[0] in ('read', 'doPoll')] or [len(trace)])
+    for n, x in A['params'].items():
+        p, e, s = x['p'], x['cfg'], snap.get(n)
+        if s is None:
+            fails.append(_fail('accessible-missing', f'module {name}: accessible {n} missing on the instance'))
+            continue
+        en = expected_export(p, e, mod_export)
+        acc = None
+        if desc is not None:
+            accs = desc['accessibles']
+            if en is None:
+                auto = n if n in (PREDEF_CMDS if p['kind'] == 'cmd' else PREDEF_PARAMS) else '_' + n
+                cands = {auto} | ({p['export']} if isinstance(p.get('export'), str) else set())
+                others = {expected_export(y['p'], y['cfg'], mod_export) for q, y in A['params'].items() if q != n}
+                if any(c in accs and c not in others for c in cands):
+                    fails.append(_fail('describe', f'module {name}: {n} has export=False but is described'))
+            else:
+                acc = accs.get(en)
+                if acc is None:
+                    fails.append(_fail('describe', f'module {name}: {n} not described under its export name {en!r}'))
+        # name resolution must agree with the configured export
+        if 'export' in e or mod_export is False:
+            if en is not None and names.get(en) != n:
+                fails.append(_fail('name-map', f'module {name}: {n} is described as {en!r} but requests for {en!r} are '
+                                   f'not resolved to it', module=name, param=n, cfg_export='export' in e))
+            hidden = [k for k, v in names.items() if v == n and k != en]
+            if hidden:
+                fails.append(_fail('name-map', f'module {name}: {n} is still reachable as {hidden[0]!r} although its '
+                                   f'configured export is {e.get("export", "module export=False")!r}', module=name, param=n,
+                                   cfg_export='export' in e, mod_export=mod_export))
+        if acc is not None:
+            for k, default in (('visibility', 1), ('group', ''), ('description', p.get('descr'))):
+                if k in e:
+                    want = VIS[e[k]] if k == 'visibility' else e[k]
+                    if acc.get(k, default) != want:
+                        fails.append(_fail('describe', f'module {name}: {n}.{k} configured {want!r}, described {acc.get(k)!r}'))
+            if p['kind'] == 'param' and 'readonly' in e and acc.get('readonly') != bool(e['readonly']):
+                fails.append(_fail('describe', f'module {name}: {n}.readonly configured {e["readonly"]!r}, described '
+                                   f'{acc.get("readonly")!r}'))
+        if p['kind'] != 'param':
+            continue
+        d = p['dt']
+        lf = numeric_leaf(d)
+        # start value
+        want = None
+        if 'conv_value' in x:
+            want = x['conv_value']
+        elif 'conv_default' in x and p.get('value') is None:
+            want = x['conv_default']
+        if want is not None and not same_value(s['value'], want):
+            fails.append(_fail('start-value', f'module {name}: {n} configured {e.get("value", e.get("default"))!r}, start '
+                               f'value in the cache is {G.untag(s["value"])!r}, expected {want!r}', module=name, param=n))
+        # limits and unit: instance, description, later range checks
+        if lf is not None:
+            a, b = x['limits']
+            if ('min' in e or 'max' in e):
+                got = tuple(G.untag(t) for t in s['limits']) if s['limits'] else None
+                if got != (a, b):
+                    fails.append(_fail('limits', f'module {name}: {n} limits configured {(a, b)!r}, instance has {got!r}'))
+                if acc is not None:
+                    di = acc['datainfo']['members'] if d['t'] == 'array' else acc['datainfo']
+                    if lf['t'] == 'scaled':
+                        sc = G.dec_float(lf['scale'])
+                        shown = (di.get('min'), di.get('max'))
+                        wantd = (int(round(a / sc)), int(round(b / sc)))
+                    else:
+                        shown = (di.get('min', -FMAX), di.get('max', FMAX))
+                        wantd = (a, b)
+                    if shown != wantd:
+                        fails.append(_fail('describe', f'module {name}: {n} datainfo shows limits {shown!r}, configured {wantd!r}'))
+            for pr, res in s['probes']:
+                v = G.untag(pr)
+                if d['t'] == 'array':
+                    if not (isinstance(v, list) and len(v) == 1):
+                        continue
+                    v = v[0]
+                if not _isnum(v) or (lf['t'] == 'int' and v != int(v)):
+                    continue
+                tol = max(abs(v) * 1e-6, 1e-9) + (G.dec_float(lf['scale']) if lf['t'] == 'scaled' else 0)
+                if a <= v <= b and res[0] != 'ok':
+                    fails.append(_fail('range-check', f'module {name}: {n} = {v!r} rejected although inside the configured '
+                                       f'limits {(a, b)!r}'))
+                if (v < a - tol or v > b + tol) and res != ['err', 'RangeError']:
+                    fails.append(_fail('range-check', f'module {name}: {n} = {v!r} outside the configured limits {(a, b)!r} '
+                                       f'gives {res[0]}:{res[1] if res[0] == "err" else ""} instead of RangeError'))
+        if lf is not None and lf['t'] in ('float', 'scaled') and ('unit' in e or (main and '$' in p.get('unit', ''))):
+            u = e.get('unit', p.get('unit', ''))
+            if main:
+                u = u.replace('$', main)
+            if s['unit'] != u:
+                fails.append(_fail('unit', f'module {name}: {n} unit should be {u!r}, instance has {s["unit"]!r}'))
+            if acc is not None:
+                di = acc['datainfo']['members'] if d['t'] == 'array' else acc['datainfo']
+                if di.get('unit', '') != u:
+                    fails.append(_fail('describe', f'module {name}: {n} datainfo shows unit {di.get("unit", "")!r}, expected {u!r}'))
+        # configured values of parameters with a write method: handed over exactly once, before the first poll
+        if p.get('has_write') and 'conv_value' in x:
+            idx = [i for i, ev in enumerate(trace) if ev[0] == 'write' and ev[2] == n]
+            outside = False
+            if lf is not None:
+                a, b = x['limits']
+                vals = x['conv_value'] if d['t'] == 'array' else [x['conv_value']]
+                outside = any(not a <= v <= b for v in vals)
+            det = dict(module=name, param=n, outside_limits=outside, mod_export=mod_export, nwrites=len(idx))
+            if len(idx) != 1:
+                fails.append(_fail('write-count', f'module {name}: configured value {e["value"]!r} of {n} handed to write_{n} '
+                                   f'{len(idx)} times', **det))
+            else:
+                if idx[0] > first_poll:
+                    fails.append(_fail('write-order', f'module {name}: write_{n} called after the first poll', **det))
+                if not same_value(trace[idx[0]][3], x['conv_value']) and not outside:
+                    fails.append(_fail('write-value', f'module {name}: write_{n} got {G.untag(trace[idx[0]][3])!r}, configured '
+                                       f'{x["conv_value"]!r}', **det))
+    return fails
+
+
+FINDING_CLASSIFIERS = {
+    # configured value outside the (possibly overridden) limits of a parameter with a write method: cached, never written
+    'out_of_range_not_written': lambda case, obs, f: f['class'] == 'write-count' and f['detail']['nwrites'] == 0
+    and f['detail']['outside_limits'] and f['detail']['mod_export'] is not False,
+    # module export=False: never initialised, so no poll thread and no start-up writes (same root cause as C15)
+    'unexported_module_not_written': lambda case, obs, f: f['class'] == 'write-count' and f['detail']['nwrites'] == 0
+    and f['detail']['mod_export'] is False,
+    # inverted limits configured on the element type of an array parameter
+    'inverted_limits_array_member': lambda case, obs, f: f['class'] == 'erroneous-accepted'
+    and f['detail']['kinds'] == ['inverted-limits']
+    and all(r.split(':')[1] in f['detail']['array_params'] for r in f['detail']['reasons']),
+    # export overridden in the configuration of a parameter/command: name map filled before the cfg is applied
+    'export_override_name_map_stale': lambda case, obs, f: f['class'] == 'name-map' and f['detail'].get('cfg_export')
+    and f['detail'].get('mod_export', True) is not False,
+}
+
+
+# ------------------------------------------------------------------ bookkeeping
+def _configured(case):
+    return sum(len([kw for k, kw in m['kws']]) for f in case['files'] for m in f['mods'])
+
+
+def nontrivial_key(case, obs):
+    if _configured(case) == 0:
+        return None
+    return json.dumps([case['classes'], case['files']], sort_keys=True)
+
+
+def outcome_labels(case, obs):
+    if obs['load'] != 'ok':
+        return ['load-failed']
+    labs = ['node-started' if obs['started'] else 'node-refused', f"files-{len(case['files'])}"]
+    for n, m in obs['mods']:
+        labs.append('module-' + m['kind'])
+        for e in m.get('errs', []):
+            labs.append('err-' + e[0])
+        if m['kind'] == 'created':
+            labs.append(f"writes-{min(3, len([e for e in m['trace'] if e[0] == 'write']))}")
+    return labs
+
+
+def sample_repr(case, obs):
+    return {'files': [file_text(f) for f in case['files']],
+            'classes': [[(p['name'], p['kind'], (p.get('dt') or {}).get('t')) for p in c['params']] for c in case['classes']],
+            'modules': [[n, m['kind'], m.get('errs', m.get('trace'))] for n, m in obs.get('mods', [])],
+            'started': obs.get('started'), 'load': obs.get('load')}
+
+
+def shrink(case):
+    """smaller cases: drop a file, a module section, a keyword, a property of a Param"""
+    def clone():
+        return json.loads(json.dumps(case))
+    if len(case['files']) > 1:
+        for i in range(len(case['files'])):
+            c = clone()
+            del c['files'][i]
+            yield c
+    for i, f in enumerate(case['files']):
+        if len(f['mods']) > 1:
+            for j in range(len(f['mods'])):
+                c = clone()
+                del c['files'][i]['mods'][j]
+                yield c
+        for j, m in enumerate(f['mods']):
+            for k in range(len(m['kws'])):
+                c = clone()
+                del c['files'][i]['mods'][j]['kws'][k]
+                yield c
+                if m['kws'][k][1][0] == 'param':
+                    for q in range(len(m['kws'][k][1][2])):
+                        c = clone()
+                        del c['files'][i]['mods'][j]['kws'][k][1][2][q]
+                        yield c
